@@ -6,13 +6,20 @@ import FluentProofs.SerializerSelect
 import FluentProofs.SerializerFinal
 import FluentProofs.SerializerOutValid
 import FluentProofs.SerializerOutShape5
+import FluentProofs.SerializerOutCrValid
 /-!
 # C04 — serializer round trip
 
 Model: `FluentModel/Serializer.lean` (`Serializer` + `TextWriter`, function for function) and
 `FluentModel/Parser.lean`.  The two full statements are the `def`s `C04_roundtrip_statement` and
-`C04_fixpoint_statement` below; they are **not** proved in full.  What is proved, for all trees /
-all inputs (structural induction over the mutual AST types):
+`C04_fixpoint_statement` below.  **Proved: both statements for EVERY `String` in which each `\r` is followed by
+`\n` (LF and CRLF sources), for `with_junk = false` without any further hypothesis and for `with_junk = true`
+when the parse tree has no Junk** (`C04_roundtrip_noLoneCR`; `C04_roundtrip_crfree_nojunk`,
+`C04_roundtrip_crfree_junkfree` for `\r`-free sources, where the tree itself — not only its `normSafe` form —
+is in the class).  Open, kept visible as `def`s: `C04_roundtrip_cr_open` (sources with a lone `\r`) and
+`C04_roundtrip_junk_open` (Junk re-emitted verbatim with `with_junk = true`); `C04_roundtrip_of_open` /
+`C04_fixpoint_of_open` show that these two are all that is left.  In detail, for all trees / all inputs
+(structural induction over the mutual AST types, partial-correctness induction along the parser functions):
 
 * T1a `serialize_total` — the serializer never panics (`dedent` never underflows), any tree shape;
 * T1b `writeLiteral_discipline`, `newline_discipline`, `writeCharIntoIndent_discipline`,
@@ -33,29 +40,41 @@ all inputs (structural induction over the mutual AST types):
 * T3 `roundtrip_class_partial`, `roundtrip_class_sources` — **both full statements for every source
   whose parse tree is `RoundTrippable`** (decidable): messages and terms with optional values,
   attributes, attached comments; free comments of the three levels; Junk when serialising without junk.
-  A census (`#guard`, tests) shows 34 of the 36 fixture files inside the class for `with_junk = false`.
+  A census (`#guard`, tests) shows 34 of the 36 fixture files inside the class for `with_junk = false`
+  (the other two, `cr.ftl` and `crlf.ftl`, contain `\r`; `crlf.ftl` is covered through `normSafe`);
+* **the other half, "every tree the parser produces is in the class"**: `parse_pattern_shape` (the element
+  list `get_pattern` returns after dedent and trim is an `mlPattern`, any `\r`-free source, any fuel, any
+  start), `parse_pattern_shape_crlf` (the same after joining `"x"`, `"\n"` for CRLF sources),
+  `parse_output_in_class` (every entry of the parse tree is Junk or `rtEntry`: bridge from `ValidEntry`,
+  deep lifting of the pattern shape, comments), `parse_output_roundTrippable`,
+  `parse_output_normSafe_roundTrippable`;
+* **`C04_roundtrip_crfree_nojunk`, `C04_roundtrip_crfree_junkfree`, `C04_roundtrip_noLoneCR`** — the full
+  statements for all such sources (no hypothesis on the tree, no fuel hypothesis).  To get there the class was
+  widened where the parser produces shapes that round-trip but were excluded: multi-line patterns in which no
+  line takes part in the common indent (`b=.{$x ->…}z`), named-argument values that are message references or
+  calls (`F(x: foo)`, the parser's `only_literal` leniency), select expressions at every inline position.
 
-Missing for the full statements: trees outside `RoundTrippable` — Junk with `with_junk = true` (needs a
-containment theorem for broken entries), `\r` inside text (the `\r` doubling), text element splits
-that the parser itself would join differently (only equal under `norm`, e.g. CRLF sources), and "every
-parser output is in the class".  `C04_fixpoint_statement` needs
-nothing else than `C04_roundtrip_statement` (`fixpoint_of_roundtrip`).
+Still open (`C04_roundtrip_cr_open`, `C04_roundtrip_junk_open`): a lone `\r` (it stays inside text / comment
+lines, which the class excludes, and is doubled by the `TextWriter`), and Junk with `with_junk = true` (needs
+that a broken entry is broken in the same way in front of the *re-serialised* next entry: a context-independence
+theorem for failing `get_entry` runs, stronger than the C03 containment theorems).  No source is known on which
+the model violates either statement (exhaustive enumeration of short sources over small alphabets and ~100 000
+random structured sources, both options, with and without `\r`).  `C04_fixpoint_statement` needs nothing else
+than `C04_roundtrip_statement` (`fixpoint_of_roundtrip`).
 -/
 namespace FluentProofs.C04
 open FluentModel FluentModel.Syntax FluentModel.Syntax.Ser FluentProofs.Parser FluentProofs.Ser
 
-/-! ## the full statements (kept visible; not proved in full) -/
+/-! ## the full statements (kept visible; proved except for two corner classes, see the end of the file) -/
 
-/-- **C04 round trip (full statement, open).**  For every source string and both options: if the
-parser gives the tree `t`, then serialising `t` succeeds with some text `out`, parsing `out`
+/-- **C04 round trip (full statement; open only for lone `\r` and for Junk with `with_junk = true`).**
+For every source string and both options: if the parser gives the tree `t`, then serialising `t` succeeds with some text `out`, parsing `out`
 succeeds with a tree `t'`, and `t'` equals `t` under `norm` (adjacent text elements joined
 recursively, whitespace-only comment lines equal to empty ones, Junk dropped when `¬withJunk`).
 
-Not proved.  Proved parts: `serialize_total` (the `∃ out`), `inline_roundtrip` (the inline
-expression layer), `roundtrip_singleline_partial` (the whole chain through `parse` for trees of
-messages/terms with single-line values).  Missing: multi-line patterns (`get_pattern`'s indentation
-stripping against `serialize_pattern`'s indentation), select expressions, attributes, comments and
-Junk. -/
+Proved for every string without a lone `\r` — `with_junk = false`: always; `with_junk = true`: when the tree
+has no Junk — `C04_roundtrip_noLoneCR`.  The rest is `C04_roundtrip_cr_open` ∧ `C04_roundtrip_junk_open`
+(`C04_roundtrip_of_open`). -/
 def C04_roundtrip_statement : Prop :=
   ∀ (str : String) (withJunk : Bool) (t : Resource Span) (errs : List PErr),
     parse str.toUTF8.data = .done (t, errs) →
@@ -66,8 +85,8 @@ def C04_roundtrip_statement : Prop :=
 /-- **C04 fixed point (full statement, open).**  Serialising the re-parsed tree reproduces the text
 byte for byte.
 
-Not proved outright, but `fixpoint_of_roundtrip` proves that it follows from
-`C04_roundtrip_statement`. -/
+`fixpoint_of_roundtrip` proves that it follows from `C04_roundtrip_statement`; proved together with it for
+every string without a lone `\r` (`C04_roundtrip_noLoneCR`, last conjunct). -/
 def C04_fixpoint_statement : Prop :=
   ∀ (str : String) (withJunk : Bool) (t : Resource Span) (errs : List PErr),
     parse str.toUTF8.data = .done (t, errs) →
@@ -1413,11 +1432,13 @@ example : (inClass fixture_zero_length true == true && inClass fixture_zero_leng
 
 `roundtrip_class_sources` needs `RoundTrippable withJunk (tree)`.  This section proves it for parser
 output: for EVERY `String` without the byte 13 (`CRFree`) the parse tree is in the class — except for its
-Junk entries — hence both full statements hold for all such sources when serialising without Junk
-(`C04_roundtrip_crfree_nojunk`), and with `with_junk = true` when the tree contains no Junk
-(`C04_roundtrip_crfree_junkfree`).  What is left of the full statement is kept visible as the two `def`s
-`C04_roundtrip_cr_open` (sources that contain `\r`) and `C04_roundtrip_junk_open` (Junk re-emitted
-verbatim with `with_junk = true`); `C04_roundtrip_of_open` shows that they are all that is left. -/
+Junk entries — and for every `String` without a lone `\r` (`NoLoneCRStr`) the `normSafe` form of the tree is.
+Hence both full statements hold for all such sources when serialising without Junk, and with
+`with_junk = true` when the tree contains no Junk (`C04_roundtrip_crfree_nojunk`,
+`C04_roundtrip_crfree_junkfree`, `C04_roundtrip_noLoneCR`).  What is left of the full statement is kept
+visible as the two `def`s `C04_roundtrip_cr_open` (sources with a lone `\r`) and `C04_roundtrip_junk_open`
+(Junk re-emitted verbatim with `with_junk = true`); `C04_roundtrip_of_open` shows that they are all that is
+left. -/
 
 /-- the string contains no carriage return (byte 13) -/
 def CRFree (str : String) : Prop := ∀ j : Nat, str.toUTF8.data[j]? ≠ some (13 : UInt8)
@@ -1479,24 +1500,65 @@ theorem C04_roundtrip_crfree_junkfree (str : String) (hcr : CRFree str) (t : Res
         Ser.serialize withJunk (resolve out.toArray t') = some out :=
   roundtrip_class_sources str withJunk t errs hp (parse_output_roundTrippable _ hcr t errs hp withJunk (fun _ => hj))
 
-/-- **open part 1 of `C04_roundtrip_statement`: sources that contain `\r`.**  (CRLF line ends give trees whose
-text elements are split differently — `"x"`, `"\n"` instead of `"x\n"` — and are equal to the re-parsed tree
-only under `norm`; a lone `\r` stays inside text and is doubled by the `TextWriter` in front of `\n`.  On
-every tested source the model satisfies the statement; it is not proved.) -/
+/-- every carriage return of the string is followed by a line feed (CRLF line ends; `CRFree` strings trivially) -/
+def NoLoneCRStr (str : String) : Prop :=
+  ∀ j : Nat, str.toUTF8.data[j]? = some (13 : UInt8) → str.toUTF8.data[j + 1]? = some (10 : UInt8)
+
+theorem CRFree.noLoneCR {str : String} (h : CRFree str) : NoLoneCRStr str := fun j hj => absurd hj (h j)
+
+/-- **PATTERN SHAPE for CRLF sources.**  In a source in which every `\r` is followed by `\n`, a text slice in
+front of `\r\n` is cut before the `\r` and the `\n` is pushed as an element of its own, so `get_pattern`
+returns `…, "x", "\n", …` where an LF source gives `…, "x\n", …` (equal only under `norm`).  With every text
+that does not end in `\n` joined to the text behind it (`Ser.joinTop` = the top level of `nPat okSafe`), the
+pattern is in the class `mlPattern`. -/
+theorem parse_pattern_shape_crlf (s : Src) (hcr : Ser.NoLoneCR s) (n p : Nat)
+    (els : List (PatElem Span)) (q : Nat) (h : getPattern s n p = .ok (some els) q) :
+    mlPattern (Ser.joinTop (mapPat (spanBytes s) els)) = true :=
+  Ser.getPattern_mlPattern_join hcr n p els q h
+
+/-- the `normSafe` form of the parse tree of a source without lone `\r` is in the class (Junk aside) -/
+theorem parse_output_normSafe_roundTrippable (s : Src) (hcr : Ser.NoLoneCR s)
+    (t : Resource Span) (errs : List PErr) (h : parse s = .done (t, errs)) (withJunk : Bool)
+    (hj : withJunk = true → ∀ e ∈ t, ∀ c, e ≠ .junk c) :
+    RoundTrippable withJunk (normSafe withJunk (resolve s t)) = true :=
+  Ser.roundTrippable_normSafe_of_parse' s hcr t errs h withJunk hj
+
+/-- **(d) both full statements for EVERY string without a lone `\r`** (LF and CRLF sources alike): for
+`with_junk = false` without any further hypothesis, for `with_junk = true` when the tree has no Junk.
+Proof: the tree `r` and `normSafe r` serialise to the same bytes (`serialize_congr`), `normSafe r` is
+`RoundTrippable` (`parse_output_normSafe_roundTrippable`), and `norm (normSafe r) = norm r`
+(`Ser.norm_normSafe`). -/
+theorem C04_roundtrip_noLoneCR (str : String) (hcr : NoLoneCRStr str) (withJunk : Bool) (t : Resource Span)
+    (errs : List PErr) (hp : parse str.toUTF8.data = .done (t, errs))
+    (hj : withJunk = true → ∀ e ∈ t, ∀ c, e ≠ .junk c) :
+    ∃ out, Ser.serialize withJunk (resolve str.toUTF8.data t) = some out ∧
+      ∃ t' errs', parse out.toArray = .done (t', errs') ∧
+        norm withJunk (resolve out.toArray t') = norm withJunk (resolve str.toUTF8.data t) ∧
+        Ser.serialize withJunk (resolve out.toArray t') = some out := by
+  have hrt := parse_output_normSafe_roundTrippable _ hcr t errs hp withJunk hj
+  obtain ⟨out, h1, h2⟩ := roundtrip_rt withJunk _ hrt
+  rw [Ser.serialize_normSafe] at h1
+  obtain ⟨t', h3, h4, h5⟩ := h2 (serialize_atb_of_parse str t errs hp withJunk out h1)
+  exact ⟨out, h1, t', [], h3, by rw [h4, Ser.norm_normSafe], h5⟩
+
+/-- **open part 1 of `C04_roundtrip_statement`: sources that contain a lone `\r`** (a `\r` not followed by
+`\n`).  It stays inside text and comment lines (the class excludes the byte 13 there) and is doubled by the
+`TextWriter` in front of `\n`.  On every tested source the model satisfies the statement; it is not proved. -/
 def C04_roundtrip_cr_open : Prop :=
-  ∀ (str : String) (withJunk : Bool) (t : Resource Span) (errs : List PErr), ¬ CRFree str →
+  ∀ (str : String) (withJunk : Bool) (t : Resource Span) (errs : List PErr), ¬ NoLoneCRStr str →
     parse str.toUTF8.data = .done (t, errs) →
     ∃ out, Ser.serialize withJunk (resolve str.toUTF8.data t) = some out ∧
       ∃ t' errs', parse out.toArray = .done (t', errs') ∧
         norm withJunk (resolve out.toArray t') = norm withJunk (resolve str.toUTF8.data t)
 
-/-- **open part 2 of `C04_roundtrip_statement`: Junk re-emitted verbatim (`with_junk = true`) in a `\r`-free
-source.**  It needs that the bytes of a broken entry, put in front of the *re-serialised* following entry,
-are broken in the same way (the failing run of `get_entry` may have looked into the first line of the next
-entry, up to its `=`; the serializer normalises the blanks there).  The C03 containment theorems
-(`Parser.parse_containment`) bound where the Junk ends, not what is produced before that point. -/
+/-- **open part 2 of `C04_roundtrip_statement`: Junk re-emitted verbatim (`with_junk = true`)**, source
+without lone `\r`.  It needs that the bytes of a broken entry, put in front of the *re-serialised* following
+entry, are broken in the same way (the failing run of `get_entry` may have looked into the first line of the
+next entry, up to its `=`; the serializer normalises the blanks there).  The C03 containment theorems
+(`Parser.parse_containment`) bound where the Junk ends, not what is produced before that point.  On every
+tested source the model satisfies the statement; it is not proved. -/
 def C04_roundtrip_junk_open : Prop :=
-  ∀ (str : String) (t : Resource Span) (errs : List PErr), CRFree str → (∃ e ∈ t, ∃ c, e = .junk c) →
+  ∀ (str : String) (t : Resource Span) (errs : List PErr), NoLoneCRStr str → (∃ e ∈ t, ∃ c, e = .junk c) →
     parse str.toUTF8.data = .done (t, errs) →
     ∃ out, Ser.serialize true (resolve str.toUTF8.data t) = some out ∧
       ∃ t' errs', parse out.toArray = .done (t', errs') ∧
@@ -1507,21 +1569,31 @@ def C04_roundtrip_junk_open : Prop :=
 theorem C04_roundtrip_of_open (hcr : C04_roundtrip_cr_open) (hjunk : C04_roundtrip_junk_open) :
     C04_roundtrip_statement := by
   intro str withJunk t errs hp
-  by_cases hc : CRFree str
-  · cases withJunk with
-    | false =>
-      obtain ⟨out, h1, t', errs', h2, h3, _⟩ := C04_roundtrip_crfree_nojunk str hc t errs hp
+  by_cases hc : NoLoneCRStr str
+  · by_cases hj : withJunk = true ∧ ∃ e ∈ t, ∃ c, e = .junk c
+    · obtain ⟨rfl, hj⟩ := hj
+      exact hjunk str t errs hc hj hp
+    · have hj' : withJunk = true → ∀ e ∈ t, ∀ c, e ≠ .junk c :=
+        fun hw e he c hec => hj ⟨hw, e, he, c, hec⟩
+      obtain ⟨out, h1, t', errs', h2, h3, _⟩ := C04_roundtrip_noLoneCR str hc withJunk t errs hp hj'
       exact ⟨out, h1, t', errs', h2, h3⟩
-    | true =>
-      by_cases hj : ∃ e ∈ t, ∃ c, e = .junk c
-      · exact hjunk str t errs hc hj hp
-      · have hj' : ∀ e ∈ t, ∀ c, e ≠ .junk c := fun e he c hec => hj ⟨e, he, c, hec⟩
-        obtain ⟨out, h1, t', errs', h2, h3, _⟩ := C04_roundtrip_crfree_junkfree str hc t errs hp hj' true
-        exact ⟨out, h1, t', errs', h2, h3⟩
   · exact hcr str withJunk t errs hc hp
+
+/-- the same for the fixed point -/
+theorem C04_fixpoint_of_open (hcr : C04_roundtrip_cr_open) (hjunk : C04_roundtrip_junk_open) :
+    C04_fixpoint_statement :=
+  fixpoint_of_roundtrip (C04_roundtrip_of_open hcr hjunk)
 
 /-- test: `CRFree` and the hypotheses of `C04_roundtrip_crfree_nojunk` are satisfiable, and the theorem's
 conclusion agrees with evaluation: `"a =\n    x\n     { $n ->\n   *[o] y\n    }\nerr {\n"` -/
 example : roundtripHolds "a =\n    x\n     { $n ->\n   *[o] y\n    }\nerr {\n".toUTF8.data false = true := by decide +kernel
+
+/-- test: a CRLF source (`"a =\r\n  x \r\n\r\n   { $y }\r\n y\r\n"`): its tree is outside the class, its `normSafe` form
+inside, and the statement holds by evaluation -/
+example : (inClass "a =\r\n  x \r\n\r\n   { $y }\r\n y\r\n".toUTF8.data false == false &&
+    (match parse "a =\r\n  x \r\n\r\n   { $y }\r\n y\r\n".toUTF8.data with
+     | .done (t, _) => RoundTrippable false (normSafe false (resolve "a =\r\n  x \r\n\r\n   { $y }\r\n y\r\n".toUTF8.data t))
+     | _ => false) &&
+    roundtripHolds "a =\r\n  x \r\n\r\n   { $y }\r\n y\r\n".toUTF8.data false) = true := by decide +kernel
 
 end FluentProofs.C04
